@@ -47,7 +47,7 @@ Definition spec_ok (c : case_t) : bool :=
 
 def run(ctx):
     out, cases, obs, usable, bad = fakes.drive(
-        ctx, "c14", SPEC, ctx.budget(34, 600), 0, ctx.budget(16, 768), RULE,
+        ctx, "c14", SPEC, ctx.budget(34, 350), 0, ctx.budget(16, 768), RULE,
         "an exception escaped the scheduling loop / an independent job was not executed / a downstream job was "
         "executed / the error does not name exactly the failed jobs", fail_p=0.85)
     return out
